@@ -347,6 +347,37 @@ def run(shard, rec, rng):
                 rec.violation("C14/file-outside-current-root-served", f"send_from_directory('rel', 'a.txt') after chdir: {got!r}", {"function": "static-file", "request_path": "relative directory + chdir"}, monitor="response-body")
         finally:
             os.chdir(cwd0)
+        # ---- a directory literally named "~" inside the served tree, a home directory holding a file of the same name
+        rec.case()
+        rec.nontrivial(("tilde-directory",))
+        home0 = os.environ.get("HOME")
+        try:
+            served_root, fake_home = os.path.join(top, "tilde-root"), os.path.join(top, "fake-home")
+            os.makedirs(os.path.join(served_root, "~"))
+            os.makedirs(fake_home)
+            for d_, text_ in ((os.path.join(served_root, "~"), "FILE-INSIDE-THE-ROOT"), (fake_home, "SENTINEL-SECRET in the home directory")):
+                with open(os.path.join(d_, "notes.txt"), "w") as f:
+                    f.write(text_)
+            os.environ["HOME"] = fake_home
+            os.chdir(served_root)
+            got = []
+            for base_, req_ in (("", "~/notes.txt"), (".", "~/notes.txt"), ("", "./~/notes.txt"), (served_root, "~/notes.txt")):
+                try:
+                    resp = utils.send_from_directory(base_, req_, create_environ())
+                    body = b"".join(resp.response) if resp.response else b""
+                    resp.close()
+                except Exception as e:  # noqa: BLE001 - NotFound is fine
+                    body = type(e).__name__.encode()
+                got.append((base_, req_, body))
+            rec.observe("tilde_directory_requests")
+            if any(body not in (b"FILE-INSIDE-THE-ROOT", b"NotFound") for _, _, body in got):
+                rec.violation("C14/sentinel-served", f"a directory named '~' inside the root: {got!r}", {"function": "static-file", "request_path": "~/notes.txt"}, monitor="response-body")
+        finally:
+            os.chdir(cwd0)
+            if home0 is None:
+                os.environ.pop("HOME", None)
+            else:
+                os.environ["HOME"] = home0
     finally:
         shutil.rmtree(top, ignore_errors=True)
     # ---- secure_filename
@@ -383,7 +414,11 @@ def run(shard, rec, rng):
         c = chr(cp)
         for s in (c, "a" + c + "b", c + ".txt", "../" + c, c + c):
             sf(s)
-    pool = ["／", "∕", "⧸", "＼", "．", "．．", "..", "/", "\\", " ", "\t", "　", "ａ", "ｂ.ｔｘｔ", "é", "ß", "İ", "ﬁ", "㎏", "™", "a", "b", ".", "-", "_", "~", "\x00", "CON", "nul", "aux.txt", "\u202e", "\u200b"]
+    # dots separated by characters the sanitiser deletes (ASCII punctuation, controls): what is left must already be final
+    for mid in ("$", "!", "$$", "\x00", "\x7f", "(", "'", "é", " ", "$.$"):
+        for s_ in (f"report.{mid}.pdf", f"a.{mid}.", f".{mid}.b", f"x{mid}.{mid}.y", f"a.{mid}.{mid}.b"):
+            sf(s_)
+    pool = ["／", "∕", "⧸", "＼", "．", "．．", "..", "/", "\\", " ", "\t", "　", "$", "!", ".", ".", "ａ", "ｂ.ｔｘｔ", "é", "ß", "İ", "ﬁ", "㎏", "™", "a", "b", ".", "-", "_", "~", "\x00", "CON", "nul", "aux.txt", "\u202e", "\u200b"]
     for _ in range(cfg["sf_rand"]):
         sf("".join(rng.choice(pool) for _ in range(rng.randint(1, 8))))
     # long names: length limits of file systems (255) and of anything that shortens names sit here; stems and
